@@ -36,13 +36,21 @@ static void load_inputs(void) {
 #endif
 }
 
+
+/* representation invariant of a session table as far as consumers outside the table code rely on it */
+static bool tab_consistent(const session_table *t) {
+    unsigned nv = 0; bool allc = true;
+    for (int i = 0; i < SESSION_TABLE_MAX_ENTRIES; i++) if (t->entries[i].valid) { nv++; if (!t->entries[i].complete) allc = false; }
+    return t->count == nv && t->all_complete == allc;
+}
+
 /* classifier on the same MTU-sized buffer the frame handler gets; any content, any station count */
 void h_classifier(void) {
     load_inputs();
     uint8_t *f = (uint8_t *)v_alloc(MTU);
     memcpy(f, in.frame, MTU);
     session_table *T = 0;
-    if (in.have_tab) { T = session_table_create(); V_ASSUME(T != 0); *T = in.tab; }
+    if (in.have_tab) { T = session_table_create(); V_ASSUME(T != 0); *T = in.tab; V_ASSUME(tab_consistent(T)); }
 #ifdef STATIONS_FIT
     /* excluding variant for the known finding: station list held by the buffer */
     if (f[17] == 0) V_ASSUME((((unsigned)f[34] << 8) | f[35]) <= (MTU - 36) / 6);
